@@ -681,6 +681,24 @@ Definition strip_std (S : fschema) : fschema :=
   {| s_types := user_types S; s_query := s_query S; s_mutation := s_mutation S;
      s_subscription := s_subscription S; s_directives := s_directives S; s_desc := s_desc S |}.
 
+(* main.graphql_schema as a step on the project directory: what the target file holds after the run, given
+   what it held before.  The SDL target is print_schema (graphql-core), carried abstractly as the schema it
+   prints.  A refused configuration leaves the target as it was; an accepted one OVERWRITES it with a function
+   of the schema and the settings only - the previous content (and hence its age) is never consulted. *)
+Inductive target_format := FPy | FSdl.
+Inductive target_content := CModule (m : pymod) | CSdl (printed : fschema).
+Record step := { st_schema : fschema; st_format : target_format; st_tm : chars; st_sn : chars }.
+
+Definition fresh_output (x : step) : target_content :=
+  match st_format x with
+  | FPy => CModule (gen_module (st_schema x) (st_tm x) (st_sn x))
+  | FSdl => CSdl (strip_std (st_schema x))
+  end.
+Definition graphql_schema_step (old : option target_content) (x : step) : option target_content :=
+  if settings_ok (st_tm x) (st_sn x) then Some (fresh_output x) else old.
+Definition run_history (old : option target_content) (h : list step) : option target_content :=
+  fold_left graphql_schema_step h old.
+
 (* ---------- sexp interface ---------- *)
 Definition sC (c : chars) : sexp := A (l2s c).
 Definition dC (e : sexp) : option chars := match e with A s => Some (s2l s) | _ => None end.
